@@ -6,9 +6,13 @@ validation).  helper modules: harness/c10_lang.py (language, generators), harnes
 (per-node static / run-time observation).
   1. TLC model-checks RTLIRTypes.tla: every expression up to depth 2 over small leaves, every
      environment: W >= 1, W is the run-time width, well-typed unexcused blocks raise no width
-     error, re-sizing never truncates, explicit mismatches raise.
-  2. spec -> code: every state of the dumped model graph is rendered as a real update block, type
-     checked, simulated and validated (same comparison as 3).
+     error, re-sizing never truncates, explicit mismatches raise.  A violated invariant is a
+     statement about the documented rule table, not yet about pymtl3: its counterexample states
+     are handed to 2.  (If the real checker accepts counterexample blocks and none of them
+     misbehaves, the model misrepresents the code: machinery failure.)
+  2. spec -> code: every state of the dumped model graph, and every counterexample state of 1.,
+     is rendered as a real update block, type checked, simulated and validated (same comparison
+     as 3); only that comparison produces violations.
   3. code -> spec: generated update blocks (random + systematic families) and the repo's own
      RTLIR test-case components: BehavioralRTLIRGenPass + BehavioralRTLIRTypeCheckPass, per node
      (kind, static width, _is_explicit) and the run-time nbits of the same Python ast node in the
@@ -66,29 +70,46 @@ def _model_cfg(sigw, nums, loophi, tws, depth, invs=True):
 # 1. the model
 # ------------------------------------------------------------------------------------------
 
-def _last_state_expr(out, inv):
-    """the final `e` of the first counterexample of invariant inv in TLC's output (compacted)"""
+def _counterexamples(out):
+    """[(invariant, {e, d, tw})]: the final state of every counterexample TLC printed (-continue)"""
     import re
-    m = re.search(r"Invariant %s is violated\.(.*?)(?=\nError: Invariant|\nThe coverage|\n\d+ states generated|\Z)"
-                  % re.escape(inv), out, re.S)
-    if not m:
-        return ""
-    es = re.findall(r"/\\ e = (.*?)\n/\\ tw = (\d+)", m.group(1), re.S)
-    if not es:
-        return ""
-    return re.sub(r"\s+", " ", es[-1][0]) + "  (target width %s)" % es[-1][1]
+    cex = []
+    parts = re.split(r"Error: Invariant (\S+) is violated\.", out)
+    for j in range(1, len(parts) - 1, 2):
+        inv, body = parts[j], parts[j + 1]
+        sts = re.findall(r"\nState \d+: [^\n]*\n(.*?)(?=\n\s*\n|\Z)", body, re.S)
+        if not sts:
+            raise MachineryError("cannot find the counterexample of invariant %s in TLC's output" % inv)
+        try:
+            st = tlc.parse_state(sts[-1])
+        except ValueError as e:
+            raise MachineryError("cannot parse the counterexample state of invariant %s: %s\n%s" % (inv, e, sts[-1][:400]))
+        if "e" not in st or "tw" not in st:
+            raise MachineryError("counterexample state of %s has no e / tw: %r" % (inv, sts[-1][:300]))
+        cex.append((inv, st))
+    return cex
 
 
 def _model_check(res, tier):
+    """TLC on RTLIRTypes.tla.  A violated invariant says that the documented rule table is unsound with
+    respect to the value semantics of the model -- a statement about the MODEL.  It is turned into a
+    verdict about pymtl3 only by replaying the counterexample states as real update blocks
+    (_spec_to_code): the returned list holds them."""
     quick = tier == "quick"
     cfgs = [("core", ({1, 3}, {1, 4}, set(), {1, 3}, 2)),
             ("loopvar", ({2}, {1, 3}, {2}, {2}, 2))]
     if not quick:
         cfgs.append(("wide", ({1, 2, 3}, {0, 1, 3, 4}, set(), {1, 2, 3}, 2)))
         cfgs.append(("deep", ({2}, {1, 2}, set(), {2}, 3)))
-    for name, (sw, nums, lh, tws, depth) in cfgs:
-        r = tlc.run("RTLIRTypes", cfg_text=_model_cfg(sw, nums, lh, tws, depth), coverage=True,
-                    extra=["-continue"], deadlock=False, timeout=3000)
+    cexs = {}
+    from concurrent.futures import ThreadPoolExecutor
+    nw = max(2, (os.cpu_count() or 4) // len(cfgs))
+    with ThreadPoolExecutor(max_workers=len(cfgs)) as ex:          # the TLC runs side by side
+        futs = [ex.submit(tlc.run, "RTLIRTypes", cfg_text=_model_cfg(sw, nums, lh, tws, depth), coverage=True,
+                          extra=["-continue"], deadlock=False, timeout=3000, workers=nw, heap="4g")
+                for _, (sw, nums, lh, tws, depth) in cfgs]
+        runs = [f.result() for f in futs]
+    for (name, (sw, nums, lh, tws, depth)), r in zip(cfgs, runs):
         res.add_tlc(r)
         if r.errors and not r.violated:
             raise MachineryError("TLC failed on RTLIRTypes (%s): %s\n%s" % (name, r.errors[:3], r.out[-2000:]))
@@ -99,24 +120,18 @@ def _model_check(res, tier):
                 continue
             if r.coverage.get(act, (0, 0))[1] == 0:
                 raise MachineryError("action %s never taken in RTLIRTypes (%s) (vacuous)" % (act, name))
+        found = _counterexamples(r.out) if r.violated else []
+        if len(found) != len(r.violated):
+            raise MachineryError("RTLIRTypes (%s): %d invariant violations but %d counterexamples parsed"
+                                 % (name, len(r.violated), len(found)))
+        for inv, st in found:
+            key = json.dumps([inv, tlc._freeze(st["e"]), st["tw"]], sort_keys=True, default=str)
+            cexs.setdefault(key, (inv, name, st["e"], st["tw"]))
         res.note("model_%s" % name, {"SigWidths": sorted(sw), "Nums": sorted(nums), "LoopHi": sorted(lh),
-                                     "TargetWidths": sorted(tws), "MaxDepth": depth, "states": r.distinct})
-        for inv in sorted(set(r.violated)):
-            n = r.violated.count(inv)
-            ex = _last_state_expr(r.out, inv)
-            if inv.endswith("_InferredArith"):
-                res.violation("inferred-arith-width:model",
-                              "rule table of docs/ref/datatypes.rst: an operator on two inferred-width (Python int) "
-                              "operands that the checker cannot fold gets max(n, m) / left-operand bits, but Python "
-                              "computes it with unbounded precision: invariant %s of RTLIRTypes.tla fails, e.g. for %s"
-                              % (inv, ex), {"invariant": inv, "cfg": name, "counterexamples": n, "example": ex})
-            else:
-                res.violation("model:%s" % inv, "RTLIRTypes.tla (%s) violates %s (%d states), e.g. %s"
-                              % (name, inv, n, ex), r.out[-3000:])
-        for i in range(r.distinct):
-            if i >= 3:
-                break
+                                     "TargetWidths": sorted(tws), "MaxDepth": depth, "states": r.distinct,
+                                     "invariant_counterexamples": dict(collections.Counter(r.violated))})
         res.distinct(("model", name, r.distinct))
+    return [cexs[k] for k in sorted(cexs)]
 
 
 # ------------------------------------------------------------------------------------------
@@ -257,6 +272,26 @@ def _kclass(nodes, pos):
     return n["k"] + ("(%s)" % ",".join(ops) if ops else "")
 
 
+def _int_arith(nodes, pos):
+    """an arithmetic / shift node both of whose operands are Python ints at run time and that the checker does
+    not fold to a constant (loop variables, if-expressions with an int branch, comparisons of ints): Python
+    computes it with unbounded precision -> 'binop(loopvar,num)' etc., else None"""
+    n = nodes[pos - 1]
+    if n["k"] not in ("binop", "shift") or _is_const(nodes, pos):
+        return None
+    ops = [nodes[n["a"] - 1], nodes[n["b"] - 1]]
+    if any(o["rk"] != "int" for o in ops):
+        return None
+    src, todo = set(), [n["a"], n["b"]]          # where the run-time ints come from
+    while todo:
+        c = nodes[todo.pop() - 1]
+        if c["k"] in ("loopvar", "ifexp", "cmp", "tmp", "elem", "field"):
+            src.add(c["k"])
+        if c["k"] not in ("cmp", "tmp", "loopvar"):
+            todo += [c[f] for f in _OPERANDS.get(c["k"], ()) if f in c] + ([c["c"]] if c["k"] == "ifexp" else [])
+    return "%s[%s]" % (n["k"], ",".join(sorted(src)))
+
+
 def _context(nodes, pos):
     """the nearest enclosing node that provides an explicit context (explicitly sized, or a statement)"""
     cur = pos
@@ -288,6 +323,9 @@ def _key_for(err, pos, rec):
     lit = _literal_cause([n]) if n["k"] == "num" else None
     if lit:
         return lit, n
+    ia = _int_arith(nodes, pos)
+    if ia and err == "runtime-int-exceeds-static-width":
+        return "int-arith-not-folded:" + ia, n
     key = "%s:%s" % (err, _kclass(nodes, pos))
     if not n["sx"] or err.startswith("inferred"):
         key += "@" + _context(nodes, pos)
@@ -391,7 +429,8 @@ def _finish(res, good, verdicts):
 # 2. spec -> code
 # ------------------------------------------------------------------------------------------
 
-def _spec_to_code(res, tier, workdir):
+def _spec_to_code(res, tier, workdir, cexs):
+    """every state of a dumped model graph, and every counterexample state of the model check, as a real block"""
     quick = tier == "quick"
     sw, nums, tws, depth = ({1, 2, 3}, {0, 1, 3, 4}, {1, 2, 3}, 1) if quick else ({1, 3}, {1, 4}, {1, 3}, 2)
     r, states, init, edges = tlc.dump_graph("RTLIRTypes", cfg_text=_model_cfg(sw, nums, set(), tws, depth, invs=False),
@@ -401,12 +440,10 @@ def _spec_to_code(res, tier, workdir):
         raise MachineryError("no states dumped for RTLIRTypes")
     blocks = []
     for j, (sid, st) in enumerate(sorted(states.items())):
-        tree = L.from_model(st["e"])
-        if L.inverts_inferred(tree):
+        if L.inverts_inferred(L.from_model(st["e"])):
             res.count("model_states_not_replayed_negative_int")       # ~ of an int is a negative Python int
             continue
-        tw = st["tw"]
-        blocks.append(L.Block("M%d" % j, [{"k": "assign", "t": L.sig("o%d_0" % tw, tw), "v": tree}], tag="model"))
+        blocks.append(L.model_block("M%d" % j, st["e"], st["tw"]))
     recs = _observe(blocks, workdir, nsamples=4)
     good = _prepare(res, recs, "model_states")
     res.note("spec_to_code_states", len(states))
@@ -417,7 +454,48 @@ def _spec_to_code(res, tier, workdir):
         raise MachineryError("only %d of %d model states could be replayed" % (len(good), len(states)))
     if good:
         res.sample({"kind": "spec->code", "block": good[len(good) // 2]["src"], "verdict": good[len(good) // 2]["verdict"]})
-    return good
+    # counterexamples of the model's invariants: at most CEX_CAP per invariant, evenly spread over the sorted list
+    cap = 48 if quick else 400
+    by_inv = collections.defaultdict(list)
+    for c in cexs:
+        by_inv[c[0]].append(c)
+    cblocks, cmeta = [], {}
+    for inv in sorted(by_inv):
+        lst = by_inv[inv]
+        step = max(1, -(-len(lst) // cap))
+        for (_, cfgname, e, tw) in lst[::step]:
+            if L.inverts_inferred(L.from_model(e)):
+                continue
+            name = "X%d" % len(cblocks)
+            cblocks.append(L.model_block(name, e, tw, tag="model-counterexample"))
+            cmeta[name] = inv
+    cgood = _prepare(res, _observe(cblocks, workdir, nsamples=6), "model_counterexamples") if cblocks else []
+    for rec in cgood:
+        rec["invariant"] = cmeta[rec["name"]]
+    res.note("model_counterexamples", {inv: len(v) for inv, v in by_inv.items()})
+    res.note("model_counterexamples_replayed", len(cgood))
+    return good + cgood
+
+
+def _counterexamples_finish(res, good, verdicts):
+    """a violated model invariant must be confirmed on the code by at least one of its counterexamples (the
+    trace validation of the replayed block fails -- that is what is reported); if the real checker accepts
+    counterexample blocks and none misbehaves, the model misrepresents the code"""
+    stat = collections.defaultdict(lambda: [0, 0, 0])        # invariant -> [replayed, accepted, confirmed]
+    for rec, (err, pos) in zip(good, verdicts):
+        if rec["family"] != "model_counterexamples":
+            continue
+        st = stat[rec["invariant"]]
+        st[0] += 1
+        st[1] += rec["verdict"] == "accepted"
+        st[2] += err != "ok"
+    res.note("model_counterexamples_confirmed_on_code",
+             {inv: {"replayed": a, "accepted": b, "confirmed": c} for inv, (a, b, c) in stat.items()})
+    for inv, (a, b, c) in sorted(stat.items()):
+        if b > 0 and c == 0:
+            raise MachineryError("invariant %s fails in RTLIRTypes.tla, the real checker accepts %d of the %d replayed "
+                                 "counterexample blocks, but none of them misbehaves: the model misrepresents the code"
+                                 % (inv, b, a))
 
 
 # ------------------------------------------------------------------------------------------
@@ -645,12 +723,26 @@ def _canaries(res, good, verdicts, lit_traces, lit_verdicts):
 def run(res, tier):
     import warnings
     warnings.simplefilter("ignore", SyntaxWarning)
+    tm, t0 = {}, time.time()
+
+    def lap(name):
+        nonlocal t0
+        tm[name] = round(time.time() - t0, 1)
+        t0 = time.time()
     with scratch() as d:
-        _model_check(res, tier)
+        cexs = _model_check(res, tier)
+        lap("model_check")
         lt, lmeta = _literals(res, tier)
-        good = _spec_to_code(res, tier, d) + _generated(res, tier, d) + _repo_cases(res, tier)
+        good = _spec_to_code(res, tier, d, cexs)
+        lap("spec_to_code")
+        good += _generated(res, tier, d)
+        lap("generated")
+        good += _repo_cases(res, tier)
+        lap("repo_cases")
         bv, lv = _validate_all(res, good, lt)
+        lap("trace_validation")
         _finish(res, good, bv)
+        _counterexamples_finish(res, good, bv)
         _literals_finish(res, lmeta, lv)
         ok = [r for r, v in zip(good, bv) if v[0] == "ok" and r["verdict"] == "accepted" and len(r["nodes"]) > 6
               and r["family"] == "generated"]
@@ -658,6 +750,8 @@ def run(res, tier):
             res.sample({"kind": "generated block", "source": r["src"],
                         "nodes": [[n["k"], n["sw"], n["sx"], n["rk"], n["rw"]] for n in r["nodes"][:14]]})
         _canaries(res, good, bv, lt, lv)
+        lap("canaries")
+    res.note("phase_seconds", tm)
     res.note("rule", "a case is one update block (one component class in a scratch module): every state of the "
              "TLC model graph (spec->code), random blocks over signals of widths %s with literals up to 2^70 at "
              "2^k / 2^k+-1 boundaries, loops, temporaries, struct fields, if-expressions, constant slices, "
